@@ -304,6 +304,9 @@ def check_ri(nodes, keys):
             bad.append('live document root %d not in keys' % r)
     return bad
 
+def strip_tree_ids(t):
+    return {'node': t['node'], 'children': [strip_tree_ids(c) for c in t['children']]}
+
 def tree_shape(t):
     """Tree (neutral) -> nested tuples (kind, token?, children)"""
     nd = t['node']
@@ -414,6 +417,18 @@ class DocHarness(Harness):
         blocks = ex.call("Projector::project::<TreeIter<'_>>", [it, Ref(Cell('d'))])
         out = {'arena': nodes, 'keys': keys, 'tree': std_json(pyval(tree)), 'project': std_json(pyval(blocks))}
         sample = self.judge(in_n, out, ctx.law, ctx)
+        # ---- copy path (patch graphs of formatting / code actions / CLI): tree -> builder -> tree must be the identity
+        patch = ex.call('Graph::new', [])
+        pref = Ref(Cell(patch))
+        it2 = ex.call("TreeIter::<'_>::new", [Ref(Cell(tree))])
+        ex.call("Graph::build_key_from_iter::<TreeIter<'_>>", [pref, Ref(Cell(key)), it2])
+        rebuilt = ex.call('<&Graph as GraphContext>::collect', [Ref(Cell(pref)), Ref(Cell(key))])
+        a, b = strip_tree_ids(out['tree']), strip_tree_ids(std_json(pyval(rebuilt)))
+        ctx.law('C01.copy-through-builder-keeps-every-block', a == b, {'input': ctx.input_desc, 'tree': a, 'rebuilt': b})
+        pn = arena_std(patch)
+        pk = {k[1]: c.v for k, (kv, c) in patch.get('keys').d.items()}
+        bad = check_ri(pn, pk)
+        ctx.law('C20.RI-established-by-patch-graph', not bad, {'input': ctx.input_desc, 'problems': bad[:5]})
         if any(b['k'] in ('Bullet', 'Ordered') for b in in_n): ctx.cover('list')
         if any(b['k'] == 'Quote' and b['c'] for b in in_n): ctx.cover('quote')
         if gen.levels: ctx.cover('heading')
@@ -501,10 +516,12 @@ class DocHarness(Harness):
     def replay(self, v, driver):
         """re-run the counterexample natively; True if the real build violates the same law"""
         script = [{'op': 'doc', 'key': 'd/a', 'blocks': v['input_tree']}, {'op': 'arena'}, {'op': 'keys'}, {'op': 'collect', 'key': 'd/a'},
-                  {'op': 'project', 'key': 'd/a'}]
+                  {'op': 'project', 'key': 'd/a'}, {'op': 'copy_collect', 'key': 'd/a'}]
         res = driver.run(script)
         v['replay_script'] = script
         v['replay_result'] = res
+        if any(isinstance(x, dict) and 'panic' in x for x in res):
+            res = [x for x in res if not (isinstance(x, dict) and 'panic' in x)] + [x for x in res if isinstance(x, dict) and 'panic' in x]
         if isinstance(res[-1], dict) and 'panic' in res[-1]:
             v['replay_verdict'] = 'native panic: ' + res[-1]['panic'][:100]
             return v['law'] == 'C03.no-panic'
@@ -512,6 +529,11 @@ class DocHarness(Harness):
             v['replay_verdict'] = 'no native panic'
             return False
         out = {'arena': res[1], 'keys': res[2], 'tree': res[3], 'project': res[4]}
+        if v['law'] in ('C01.copy-through-builder-keeps-every-block', 'C20.RI-established-by-patch-graph'):
+            same = strip_tree_ids(res[3]) == strip_tree_ids(res[5]['tree'])
+            bad = check_ri(res[5]['arena'], res[5]['keys'])
+            v['replay_verdict'] = 'native copy: tree %s, patch arena problems %s' % ('equal' if same else 'DIFFERS', bad[:2])
+            return (not same) if v['law'].startswith('C01') else bool(bad)
         failed = []
         def law(name, ok, info=None):
             if ok is not True:
